@@ -15,6 +15,16 @@ BASE = {"a.txt": b"A", "d": DIR, "d/b.txt": b"B", "e": DIR, "e/c.txt": b"C"}
 def enabled(tree, meta):
     out = []
     med = ref.media(tree)
+    if meta.get("long"):
+        # long histories (two-digit generation numbers): a narrow alphabet, many steps
+        if meta["cmds"] < meta["max_cmds"]:
+            m2 = dict(meta, cmds=meta["cmds"] + 1)
+            cont = meta["cmds"] + 1 < meta["max_cmds"]
+            out.append((ops.create("", ["xxh64"]), m2, cont))
+            if meta["cmds"] in (3, 9, 10):
+                out.append((ops.create("", ["md5"], sf=["a.txt"]), m2, cont))
+                out.append((ops.create("d", ["md5"]), m2, cont))
+        return out
     if meta["cmds"] < meta["max_cmds"]:
         m2 = dict(meta, cmds=meta["cmds"] + 1)
         cont = meta["cmds"] + 1 < meta["max_cmds"]
@@ -140,9 +150,12 @@ def main(tier, seed):
             [dict(max_cmds=5, max_edits=2, rich=True), dict(max_cmds=4, max_edits=2, frozen=True, rich=True)]
     tot = {"states": 0, "transitions": 0}
     runs = []
+    plans.append(dict(max_cmds=12 if tier == "quick" else 14, max_edits=0, long=True))
     for pl in plans:
         meta = dict(alpha="c06", oracles=["c06"], cmds=0, edits=0, **pl)
         inits = [(dict(BASE), meta, "base"), ({}, meta, "empty-folder")]
+        if pl.get("long"):
+            inits = [(ops.build(eng.local_ctx(), BASE, [ops.create("d", ["md5"])]), meta, "base+child-history")]
         r = engine.bfs(eng, e1.expand, inits, max_depth=pl["max_cmds"] + pl["max_edits"], label=ops.label,
                        state_cap=400000)
         runs.append(dict(pl, **r))
@@ -150,7 +163,8 @@ def main(tier, seed):
         tot["transitions"] += r["transitions"]
     cov = {"states": tot["states"], "transitions": tot["transitions"], "traces_validated_against_impl": tot["transitions"],
            "exhaustive": not eng.caps, "runs": runs,
-           "rule": "BFS from a bare tree (and an empty folder): create with two format sets, create -sf (root and nested file), "
+           "rule": "(plus one long-history plan: 12-14 consecutive generations in a root and a nested history, -sf and child runs "
+                   "interleaved at steps 3/9/10, so that generation numbers pass 9 -> 10) BFS from a bare tree (and an empty folder): create with two format sets, create -sf (root and nested file), "
                    "create in two nested roots, delete/alter/add edits that make later runs exit 10/11; clock +10 s per "
                    "command and frozen clock; after every create: old manifests byte-identical, exactly one new manifest per "
                    "changed ascmhl folder numbered max+1 with the NNNN_<folder>_<UTC>Z.mhl name, chain = old entries + one "
